@@ -54,6 +54,9 @@ func NewLink(idx int, unreliable bool, params transport.NegotiationParams) *Link
 }
 
 // CutNow severs the link: undelivered messages are lost, both sides see errors.
+// Delivered reports whether everything the server wrote has been read by the client.
+func (l *Link) Delivered() bool { return len(l.s2c.q) == 0 }
+
 func (l *Link) CutNow() {
 	if l.Cut {
 		return
